@@ -104,6 +104,7 @@ pub proof fn lemma_sig_tm(d: CompiledDfa, tm: TMapV, p: PartV, s: StateID, cc: C
     }
 }
 /// the signature vector of a state: lists (cc, g) iff the state can move under cc into group g
+#[verifier::opaque]
 pub open spec fn sigvec_ok(tm: TMapV, p: PartV, s: StateID, v: Seq<(CharClassID, StateGroupID)>) -> bool {
     &&& forall|i: int| 0 <= i < v.len() ==> (#[trigger] v[i]).1.0 < p.len()
     &&& forall|cc: CharClassID, g: StateGroupID| #[trigger] v.contains((cc, g)) <==> (g.0 < p.len() && sig_tm(tm, p, s, cc, g.0 as int))
@@ -189,6 +190,7 @@ pub proof fn lemma_sigvec_same(tm: TMapV, p: PartV, x: StateID, y: StateID, v: S
     requires sigvec_ok(tm, p, x, v), sigvec_ok(tm, p, y, v), p.len() <= u32::MAX
     ensures same_sig(tm, p, x, y)
 {
+    reveal(sigvec_ok);
     assert forall|cc: CharClassID, h: int| #![trigger sig_tm(tm, p, x, cc, h)] #![trigger sig_tm(tm, p, y, cc, h)] 0 <= h < p.len() implies (sig_tm(tm, p, x, cc, h) <==> sig_tm(tm, p, y, cc, h)) by {
         let g = StateGroupID(h as u32);
         assert(v.contains((cc, g)) <==> (g.0 < p.len() && sig_tm(tm, p, x, cc, g.0 as int)));
@@ -223,6 +225,72 @@ pub proof fn lemma_single_group(tm: TMapV, p: PartV, g: Set<StateID>)
     }
     assert forall|x: StateID| #[trigger] g.contains(x) implies in_some(r, x) by { assert(r[0].contains(x)); }
 }
+pub proof fn lemma_split_f1(tm: TMapV, p: PartV, mv: KeyMapV, g: Set<StateID>, done: Seq<StateID>, ks: Seq<TransitionsToPartitionGroups>, r: Seq<BTreeSet<StateID>>)
+    requires
+        split_inv(tm, p, mv, done), p.len() <= u32::MAX, forall|x: StateID| #[trigger] g.contains(x) <==> done.contains(x),
+        ks.len() == r.len(), ks.no_duplicates(), forall|i: int| 0 <= i < ks.len() ==> mv.contains_key(#[trigger] ks[i]) && r[i] == mv[ks[i]],
+        forall|k: TransitionsToPartitionGroups| #[trigger] mv.contains_key(k) ==> ks.contains(k),
+    ensures forall|i: int, x: StateID| 0 <= i < pv(r).len() && #[trigger] pv(r)[i].contains(x) ==> g.contains(x)
+{
+    let rv = pv(r);
+    assert forall|i: int, x: StateID| 0 <= i < rv.len() && #[trigger] rv[i].contains(x) implies g.contains(x) by { assert(mv.contains_key(ks[i])); assert(mv[ks[i]]@.contains(x)); assert(done.contains(x)); }
+}
+pub proof fn lemma_split_f2(tm: TMapV, p: PartV, mv: KeyMapV, g: Set<StateID>, done: Seq<StateID>, ks: Seq<TransitionsToPartitionGroups>, r: Seq<BTreeSet<StateID>>)
+    requires
+        split_inv(tm, p, mv, done), p.len() <= u32::MAX, forall|x: StateID| #[trigger] g.contains(x) <==> done.contains(x),
+        ks.len() == r.len(), ks.no_duplicates(), forall|i: int| 0 <= i < ks.len() ==> mv.contains_key(#[trigger] ks[i]) && r[i] == mv[ks[i]],
+        forall|k: TransitionsToPartitionGroups| #[trigger] mv.contains_key(k) ==> ks.contains(k),
+    ensures forall|i: int| 0 <= i < pv(r).len() ==> set_nonempty(#[trigger] pv(r)[i])
+{
+    let rv = pv(r);
+    assert forall|i: int| 0 <= i < rv.len() implies set_nonempty(#[trigger] rv[i]) by { assert(mv.contains_key(ks[i])); assert(set_nonempty(mv[ks[i]]@)); }
+}
+pub proof fn lemma_split_f3(tm: TMapV, p: PartV, mv: KeyMapV, g: Set<StateID>, done: Seq<StateID>, ks: Seq<TransitionsToPartitionGroups>, r: Seq<BTreeSet<StateID>>)
+    requires
+        split_inv(tm, p, mv, done), p.len() <= u32::MAX, forall|x: StateID| #[trigger] g.contains(x) <==> done.contains(x),
+        ks.len() == r.len(), ks.no_duplicates(), forall|i: int| 0 <= i < ks.len() ==> mv.contains_key(#[trigger] ks[i]) && r[i] == mv[ks[i]],
+        forall|k: TransitionsToPartitionGroups| #[trigger] mv.contains_key(k) ==> ks.contains(k),
+    ensures forall|x: StateID| #[trigger] g.contains(x) ==> in_some(pv(r), x)
+{
+    let rv = pv(r);
+    assert forall|x: StateID| #[trigger] g.contains(x) implies in_some(rv, x) by {
+        assert(done.contains(x));
+        assert(has_key_with(mv, x));
+        let k = choose|k: TransitionsToPartitionGroups| #[trigger] mv.contains_key(k) && mv[k]@.contains(x);
+        assert(ks.contains(k));
+        let i = choose|i: int| 0 <= i < ks.len() && ks[i] == k;
+        assert(rv[i].contains(x));
+    }
+}
+pub proof fn lemma_split_f4(tm: TMapV, p: PartV, mv: KeyMapV, g: Set<StateID>, done: Seq<StateID>, ks: Seq<TransitionsToPartitionGroups>, r: Seq<BTreeSet<StateID>>)
+    requires
+        split_inv(tm, p, mv, done), p.len() <= u32::MAX, forall|x: StateID| #[trigger] g.contains(x) <==> done.contains(x),
+        ks.len() == r.len(), ks.no_duplicates(), forall|i: int| 0 <= i < ks.len() ==> mv.contains_key(#[trigger] ks[i]) && r[i] == mv[ks[i]],
+        forall|k: TransitionsToPartitionGroups| #[trigger] mv.contains_key(k) ==> ks.contains(k),
+    ensures forall|i: int, j: int, x: StateID| 0 <= i < pv(r).len() && 0 <= j < pv(r).len() && #[trigger] pv(r)[i].contains(x) && #[trigger] pv(r)[j].contains(x) ==> i == j
+{
+    let rv = pv(r);
+    assert forall|i: int, j: int, x: StateID| 0 <= i < rv.len() && 0 <= j < rv.len() && #[trigger] rv[i].contains(x) && #[trigger] rv[j].contains(x) implies i == j by {
+        assert(mv.contains_key(ks[i]) && mv.contains_key(ks[j]));
+        assert(mv[ks[i]]@.contains(x) && mv[ks[j]]@.contains(x));
+        assert(ks[i] == ks[j]);
+        if i != j { assert(ks[i] != ks[j]); }
+    }
+}
+pub proof fn lemma_split_f5(tm: TMapV, p: PartV, mv: KeyMapV, g: Set<StateID>, done: Seq<StateID>, ks: Seq<TransitionsToPartitionGroups>, r: Seq<BTreeSet<StateID>>)
+    requires
+        split_inv(tm, p, mv, done), p.len() <= u32::MAX, forall|x: StateID| #[trigger] g.contains(x) <==> done.contains(x),
+        ks.len() == r.len(), ks.no_duplicates(), forall|i: int| 0 <= i < ks.len() ==> mv.contains_key(#[trigger] ks[i]) && r[i] == mv[ks[i]],
+        forall|k: TransitionsToPartitionGroups| #[trigger] mv.contains_key(k) ==> ks.contains(k),
+    ensures forall|i: int, x: StateID, y: StateID| 0 <= i < pv(r).len() && #[trigger] pv(r)[i].contains(x) && #[trigger] pv(r)[i].contains(y) ==> same_sig(tm, p, x, y)
+{
+    let rv = pv(r);
+    assert forall|i: int, x: StateID, y: StateID| 0 <= i < rv.len() && #[trigger] rv[i].contains(x) && #[trigger] rv[i].contains(y) implies same_sig(tm, p, x, y) by {
+        assert(mv.contains_key(ks[i]));
+        assert(mv[ks[i]]@.contains(x) && mv[ks[i]]@.contains(y));
+        lemma_sigvec_same(tm, p, x, y, ks[i].0@);
+    }
+}
 pub proof fn lemma_split_final(tm: TMapV, p: PartV, mv: KeyMapV, g: Set<StateID>, done: Seq<StateID>, ks: Seq<TransitionsToPartitionGroups>, r: Seq<BTreeSet<StateID>>)
     requires
         split_inv(tm, p, mv, done), p.len() <= u32::MAX, forall|x: StateID| #[trigger] g.contains(x) <==> done.contains(x),
@@ -230,24 +298,11 @@ pub proof fn lemma_split_final(tm: TMapV, p: PartV, mv: KeyMapV, g: Set<StateID>
         forall|k: TransitionsToPartitionGroups| #[trigger] mv.contains_key(k) ==> ks.contains(k),
     ensures split_ok(tm, p, g, pv(r))
 {
-    let rv = pv(r);
-    assert forall|i: int, x: StateID| 0 <= i < rv.len() && #[trigger] rv[i].contains(x) implies g.contains(x) by { assert(mv[ks[i]]@.contains(x)); }
-    assert forall|i: int| 0 <= i < rv.len() implies set_nonempty(#[trigger] rv[i]) by { assert(mv.contains_key(ks[i])); assert(set_nonempty(mv[ks[i]]@)); }
-    assert forall|x: StateID| #[trigger] g.contains(x) implies in_some(rv, x) by {
-        assert(has_key_with(mv, x));
-        let k = choose|k: TransitionsToPartitionGroups| #[trigger] mv.contains_key(k) && mv[k]@.contains(x);
-        let i = choose|i: int| 0 <= i < ks.len() && ks[i] == k;
-        assert(rv[i].contains(x));
-    }
-    assert forall|i: int, j: int, x: StateID| 0 <= i < rv.len() && 0 <= j < rv.len() && #[trigger] rv[i].contains(x) && #[trigger] rv[j].contains(x) implies i == j by {
-        assert(mv[ks[i]]@.contains(x) && mv[ks[j]]@.contains(x));
-        assert(ks[i] == ks[j]);
-        if i != j { assert(ks[i] != ks[j]); }
-    }
-    assert forall|i: int, x: StateID, y: StateID| 0 <= i < rv.len() && #[trigger] rv[i].contains(x) && #[trigger] rv[i].contains(y) implies same_sig(tm, p, x, y) by {
-        assert(mv[ks[i]]@.contains(x) && mv[ks[i]]@.contains(y));
-        lemma_sigvec_same(tm, p, x, y, ks[i].0@);
-    }
+    lemma_split_f1(tm, p, mv, g, done, ks, r);
+    lemma_split_f2(tm, p, mv, g, done, ks, r);
+    lemma_split_f3(tm, p, mv, g, done, ks, r);
+    lemma_split_f4(tm, p, mv, g, done, ks, r);
+    lemma_split_f5(tm, p, mv, g, done, ks, r);
 }
 /// inserting state x under its signature vector key keeps the collection invariant
 pub proof fn lemma_split_step(tm: TMapV, p: PartV, mv0: KeyMapV, mv1: KeyMapV, done: Seq<StateID>, x: StateID, k: TransitionsToPartitionGroups)
@@ -283,5 +338,96 @@ pub proof fn lemma_split_step(tm: TMapV, p: PartV, mv0: KeyMapV, mv1: KeyMapV, d
             if k1 == k { assert(mv0.contains_key(k) && mv0[k]@.contains(y)); } else { assert(mv0[k1]@.contains(y)); }
             if k2 == k { assert(mv0.contains_key(k) && mv0[k]@.contains(y)); } else { assert(mv0[k2]@.contains(y)); }
         }
+    }
+}
+
+// ---------------------------------------------------------------- calculate_new_partition: all groups split, pieces in order
+pub open spec fn all_nonempty(p: PartV) -> bool { forall|g: int| 0 <= g < p.len() ==> set_nonempty(#[trigger] p[g]) }
+pub open spec fn groups_disjoint(p: PartV) -> bool {
+    forall|g: int, h: int, x: StateID| 0 <= g < p.len() && 0 <= h < p.len() && #[trigger] p[g].contains(x) && #[trigger] p[h].contains(x) ==> g == h
+}
+/// new holds the pieces of the first idx groups of old, in order; org[i] = the group piece i came from
+pub open spec fn refined(tm: TMapV, old: PartV, new: PartV, org: Seq<int>, idx: int) -> bool {
+    &&& org.len() == new.len()
+    &&& forall|i: int| 0 <= i < new.len() ==> 0 <= #[trigger] org[i] < idx && set_nonempty(new[i])
+    &&& forall|i: int, x: StateID| 0 <= i < new.len() && #[trigger] new[i].contains(x) ==> old[org[i]].contains(x)
+    &&& forall|j: int, x: StateID| 0 <= j < idx && #[trigger] old[j].contains(x) ==> in_some(new, x)
+    &&& groups_disjoint(new)
+    &&& forall|i: int, x: StateID, y: StateID| 0 <= i < new.len() && #[trigger] new[i].contains(x) && #[trigger] new[i].contains(y) ==> same_sig(tm, old, x, y)
+    &&& new.len() >= idx
+    &&& new.len() == idx ==> forall|j: int| 0 <= j < idx ==> #[trigger] new[j] == old[j]
+}
+pub proof fn lemma_refine_step(tm: TMapV, old: PartV, new0: PartV, org0: Seq<int>, idx: int, pieces: PartV)
+    requires
+        refined(tm, old, new0, org0, idx), 0 <= idx < old.len(), split_ok(tm, old, old[idx], pieces),
+        groups_disjoint(old), all_nonempty(old),
+    ensures
+        refined(tm, old, new0 + pieces, org0 + Seq::new(pieces.len(), |i: int| idx), idx + 1), pieces.len() >= 1,
+{
+    let new1 = new0 + pieces;
+    let org1 = org0 + Seq::new(pieces.len(), |i: int| idx);
+    let n0 = new0.len() as int;
+    assert(set_nonempty(old[idx]));
+    let w = choose|w: StateID| #[trigger] old[idx].contains(w);
+    assert(in_some(pieces, w));
+    assert forall|i: int| 0 <= i < new1.len() implies 0 <= #[trigger] org1[i] < idx + 1 && set_nonempty(new1[i]) by {
+        if i < n0 { assert(new1[i] == new0[i] && org1[i] == org0[i]); } else { assert(new1[i] == pieces[i - n0]); }
+    }
+    assert forall|i: int, x: StateID| 0 <= i < new1.len() && #[trigger] new1[i].contains(x) implies old[org1[i]].contains(x) by {
+        if i < n0 { assert(new1[i] == new0[i] && org1[i] == org0[i]); } else { assert(new1[i] == pieces[i - n0]); }
+    }
+    assert forall|j: int, x: StateID| 0 <= j < idx + 1 && #[trigger] old[j].contains(x) implies in_some(new1, x) by {
+        if j < idx { assert(in_some(new0, x)); let i = choose|i: int| 0 <= i < new0.len() && #[trigger] new0[i].contains(x); assert(new1[i].contains(x)); }
+        else { assert(in_some(pieces, x)); let i = choose|i: int| 0 <= i < pieces.len() && #[trigger] pieces[i].contains(x); assert(new1[n0 + i] == pieces[i]); assert(new1[n0 + i].contains(x)); }
+    }
+    assert(groups_disjoint(new1)) by {
+        assert forall|g: int, h: int, x: StateID| 0 <= g < new1.len() && 0 <= h < new1.len() && #[trigger] new1[g].contains(x) && #[trigger] new1[h].contains(x) implies g == h by {
+            if g < n0 && h < n0 { assert(new0[g].contains(x) && new0[h].contains(x)); }
+            else if g >= n0 && h >= n0 { assert(pieces[g - n0].contains(x) && pieces[h - n0].contains(x)); }
+            else if g < n0 { assert(new0[g].contains(x)); assert(old[org0[g]].contains(x)); assert(pieces[h - n0].contains(x)); assert(old[idx].contains(x)); }
+            else { assert(new0[h].contains(x)); assert(old[org0[h]].contains(x)); assert(pieces[g - n0].contains(x)); assert(old[idx].contains(x)); }
+        }
+    }
+    assert forall|i: int, x: StateID, y: StateID| 0 <= i < new1.len() && #[trigger] new1[i].contains(x) && #[trigger] new1[i].contains(y) implies same_sig(tm, old, x, y) by {
+        if i < n0 { assert(new0[i].contains(x) && new0[i].contains(y)); } else { assert(pieces[i - n0].contains(x) && pieces[i - n0].contains(y)); }
+    }
+    if new1.len() == idx + 1 {
+        assert(n0 == idx && pieces.len() == 1);
+        assert forall|j: int| 0 <= j < idx + 1 implies #[trigger] new1[j] == old[j] by {
+            if j < idx { assert(new1[j] == new0[j]); } else {
+                assert(new1[j] == pieces[0]);
+                assert forall|x: StateID| pieces[0].contains(x) <==> old[idx].contains(x) by {
+                    if old[idx].contains(x) { assert(in_some(pieces, x)); }
+                }
+                assert(pieces[0] =~= old[idx]);
+            }
+        }
+    }
+}
+/// what a full round gives
+pub proof fn lemma_refine_final(d: CompiledDfa, tm: TMapV, old: PartV, new: PartV, org: Seq<int>, n: int)
+    requires
+        refined(tm, old, new, org, old.len() as int), part_ok(old, n), acc_homog(d, old), n <= u32::MAX,
+    ensures
+        part_ok(new, n), acc_homog(d, new), all_nonempty(new),
+        forall|g: int, x: StateID| 0 <= g < new.len() && #[trigger] new[g].contains(x) ==> old[org[g]].contains(x),
+{
+    assert forall|s: int| 0 <= s < n implies #[trigger] has_grp(new, s) by {
+        assert(has_grp(old, s));
+        let g = choose|g: int| #[trigger] in_grp(old, g, s);
+        assert(old[g].contains(StateID(s as u32)));
+        assert(in_some(new, StateID(s as u32)));
+        let i = choose|i: int| 0 <= i < new.len() && #[trigger] new[i].contains(StateID(s as u32));
+        assert(in_grp(new, i, s));
+    }
+    assert forall|g: int, h: int, s: int| #[trigger] in_grp(new, g, s) && #[trigger] in_grp(new, h, s) implies g == h by {
+        assert(new[g].contains(StateID(s as u32)) && new[h].contains(StateID(s as u32)));
+    }
+    assert forall|g: int, x: StateID| 0 <= g < new.len() && #[trigger] new[g].contains(x) implies x.0 < n by { assert(old[org[g]].contains(x)); }
+    assert forall|g: int| 0 <= g < new.len() implies set_nonempty(#[trigger] new[g]) by { assert(0 <= org[g]); }
+    assert forall|g: int, s1: int, s2: int| #![trigger in_grp(new, g, s1), in_grp(new, g, s2)]
+        in_grp(new, g, s1) && in_grp(new, g, s2) && d.end_states@[s1].0 implies d.end_states@[s2] == d.end_states@[s1] by {
+        assert(new[g].contains(StateID(s1 as u32)) && new[g].contains(StateID(s2 as u32)));
+        assert(in_grp(old, org[g], s1) && in_grp(old, org[g], s2));
     }
 }
